@@ -222,7 +222,7 @@ package ecscache
 //@   loop 1 invariant optsApart()
 
 //@ func (*Middleware).set
-//@   property C05 C04
+//@   property C05 C04 C07
 //@   requires mw != nil && mw.cloner != nil && ref(mw.cache) != 0 && ref(mw.ecsCache) != 0 && cr != nil && resp != nil
 //@   requires validRRs(resp.Answer) && validRRs(resp.Ns) && validRRs(resp.Extra)
 //@   modifies heap, lastLowest, csets, csetKey, csetVal, csetExp, hst, ipBytes
@@ -256,7 +256,7 @@ package ecscache
 //@             (ecs == nil ==> ecsNone(resp))
 
 //@ func (*Middleware).writeUpstreamResponse
-//@   property C05 C04
+//@   property C05 C04 C07
 //@   requires mw != nil && mw.logger != nil && mw.cloner != nil && ref(mw.cache) != 0 && ref(mw.ecsCache) != 0 && ref(rw) != 0
 //@   requires req != nil && len(req.Question) >= 1 && resp != nil && ri != nil && cr != nil && (ecsFam == 1 || ecsFam == 2)
 //@   requires validRRs(resp.Answer) && validRRs(resp.Ns) && validRRs(resp.Extra) && optsOK(resp.Answer) && optsOK(resp.Ns) && optsOK(resp.Extra) && optsApart()
